@@ -20,7 +20,7 @@ VARIABLES doc, exp, st
 
 AttrSets == SUBSET {"a", "b"}
 Leaves == {[k |-> "t", attrs |-> A, kids |-> <<>>] : A \in AttrSets}
-          \cup {[k |-> x, attrs |-> {}, kids |-> <<>>] : x \in {"o", "n", "x", "c", "m", "p"}}
+          \cup {[k |-> x, attrs |-> {}, kids |-> <<>>] : x \in {"o", "n", "x", "c", "m", "p", "mx"}}      \* mx: a comment inside mixed content (text on both sides)
 Nested == {[k |-> kk, attrs |-> A, kids |-> ks] : kk \in {"t", "o"}, A \in {{}, {"a"}},
              ks \in UNION {[1..n -> Leaves] : n \in 1..2}}
 Items == Leaves \cup Nested
